@@ -85,6 +85,8 @@ class WalkModel:
         for meth in self.client.methods.values():
             if not meth.is_async:
                 continue
+            if any(isinstance(n, ast.Yield) for n in own_nodes(meth.node)):
+                meth = self.ctx.inlined(meth)  # the fetch may sit in a local helper coroutine
             has_yield = any(isinstance(n, ast.Yield) for n in own_nodes(meth.node))
             awaits_param = any(
                 isinstance(n, ast.Await) and isinstance(n.value, ast.Call) and isinstance(n.value.func, ast.Name) and n.value.func.id in meth.params
@@ -142,7 +144,7 @@ class WalkModel:
         for n in own_nodes(self.walk.node):
             if isinstance(n, ast.For) and isinstance(n.iter, ast.Call):
                 callees = [c for c in self.ctx.r.callees(self.walk, n.iter) if isinstance(c, FuncInfo)]
-                if callees and any(isinstance(y, ast.Yield) for y in own_nodes(callees[0].node)):
+                if callees and any(isinstance(y, (ast.Yield, ast.YieldFrom)) for y in own_nodes(callees[0].node)):
                     target = callees[0]
                     calls.append(n.iter)
         if target is None:
@@ -159,6 +161,10 @@ class WalkModel:
             st = stmt_of(c)
             if isinstance(st, ast.Assign) and isinstance(st.targets[0], ast.Name):
                 fetch_results.add(st.targets[0].id)
+        for _ in range(3):  # plain copies of a fetch result (a helper's return slot) are fetch results
+            for n in own_nodes(self.walk.node):
+                if isinstance(n, ast.Assign) and len(n.targets) == 1 and isinstance(n.targets[0], ast.Name) and isinstance(n.value, ast.Name) and n.value.id in fetch_results:
+                    fetch_results.add(n.targets[0].id)
         group_results = set()
         for n in sorted((x for x in own_nodes(self.walk.node) if isinstance(x, ast.Assign)), key=lambda x: x.lineno):
             if isinstance(n.value, ast.Call) and n.value.args and isinstance(n.targets[0], ast.Name):
